@@ -47,7 +47,8 @@ def check(run: Run, prog: Program, model: Model, tier: str) -> None:
         "every token shape exactly one form is taken, the slice handed to the member loop contains every concrete "
         "member and no `...`, and Validator and Substitutor compute the same slice and window start. "
         "SubstitutorValidator must equal Validator minus missing-key reporting and placeholder skipping. "
-        "Window arithmetic and the verdict over nested values are not decided.")
+        "Window arithmetic and the verdict over nested values are not decided."
+        " Also decided: the key table DictSchema.__call__ builds (flag per entry), the relation of every bound check in every prop combination (not on a lossy image of the value), surplus positions of an exact element list also when length props are carried, the documented float tolerance.")
     run.rule_text = ("one obligation per (visitor, type, prop) row, per (prop-set, prop) presence, per key-table / shape / "
                      "alternative configuration; non-trivial = predicate extracted from interpreter paths and compared as a relation")
     run.trusted += ["the frozen constraint table (transcribed from the property statement)"]
